@@ -309,7 +309,28 @@ func r19SetValuesAreWritten(c *cx, id string, in func(*eng.Fn) bool) int {
 			other := map[string]string{}
 			for _, e := range conj {
 				be, ok := e.(*ast.BinaryExpr)
-				if !ok || be.Op != token.NEQ {
+				if !ok {
+					continue
+				}
+				// the emptiness test in its len() spellings
+				for _, pr := range [][2]ast.Expr{{be.X, be.Y}, {be.Y, be.X}} {
+					cl, ok := ast.Unparen(pr[0]).(*ast.CallExpr)
+					if !ok || len(cl.Args) != 1 {
+						continue
+					}
+					if idn, ok := ast.Unparen(cl.Fun).(*ast.Ident); !ok || idn.Name != "len" {
+						continue
+					}
+					if v, isC := f.ConstInt(pr[1]); !isC || v != 0 {
+						continue
+					}
+					if be.Op == token.NEQ || be.Op == token.GTR || be.Op == token.LSS {
+						if fld := f.Norm(cl.Args[0], nil); strings.HasPrefix(fld, "recv.") {
+							set[fld] = true
+						}
+					}
+				}
+				if be.Op != token.NEQ {
 					continue
 				}
 				for _, pr := range [][2]ast.Expr{{be.X, be.Y}, {be.Y, be.X}} {
